@@ -269,12 +269,12 @@ func ClaimsDomain() *Domain {
 // revisionHistoryLimit) and decoded into the typed object; optionally client-side defaulting
 // is applied. Pod populations over ordinals 0..2 include the fully rolled out healthy set.
 //
-//	dims: strategy shape(9), rollingUpdate shape(6), policy(4), selector(3), slots annotation(6), status shape(3), nclaims(2),
+//	dims: strategy shape(9), rollingUpdate shape(6), policy(4), selector(3), slots annotation(6), status shape(5), nclaims(2),
 //	      defaulting(2), replicas(0..2), 3 pods x (absent, healthy@upd, healthy@old, pending@upd, failed@upd)
 var admStrategyTypes = []interface{}{nil, "", "RollingUpdate", "OnDelete", "Junk"}
 
 func AdmittedDomain() *Domain {
-	dims := []int{6, 6, 4, 3, 6, 3, 2, 2, 3, 5, 5, 5, 3}
+	dims := []int{6, 6, 4, 3, 6, 5, 2, 2, 3, 5, 5, 5, 3}
 	d := &Domain{Name: "admitted(CRD lattice x 3 ordinals + a pod at the largest ordinal)", Dims: dims}
 	d.Make = func(ix []int) *Scenario {
 		sc := &Scenario{Dom: ix}
@@ -296,6 +296,14 @@ func AdmittedDomain() *Domain {
 			case 4:
 				sc.Pods = append(sc.Pods, PodSpec{Ord: o, Phase: "Failed", Rev: "t2.0", Owner: "self"})
 			}
+		}
+		// status shapes 3 and 4: the status a finished reconcile leaves behind (exact census; 3: roll-out complete), but
+		// without the optional collisionCount - a set at rest whose status the controller has nothing to add to
+		if ix[5] >= 3 {
+			if ix[5] == 3 {
+				s.CurRev = "t2.0"
+			}
+			censusStatus(s, sc.Pods)
 		}
 		// a pod whose name parses to the largest int32 ordinal (anybody can create one with matching labels)
 		switch ix[12] {
@@ -369,6 +377,10 @@ func AdmittedDomain() *Domain {
 				delete(m, "status")
 			case 2:
 				m["status"] = map[string]interface{}{"replicas": 1}
+			case 3, 4:
+				if st, ok := m["status"].(map[string]interface{}); ok {
+					delete(st, "collisionCount")
+				}
 			}
 			nb, _ := json.Marshal(m)
 			out := &apps.StatefulSet{}
